@@ -27,7 +27,7 @@ type Interp struct {
 	live    map[uint64]*base.SentinelEntry
 	pending []string
 	state   map[string]string // rule id -> C/H/O as told by the listener
-	loaded  bool
+	next    int
 }
 
 var errBiz = errors.New("biz")
@@ -53,7 +53,7 @@ func (it *Interp) Reset() {
 	it.live = map[uint64]*base.SentinelEntry{}
 	it.pending = nil
 	it.state = map[string]string{}
-	it.loaded = false
+	it.next = 0
 	it.clk.SetMs(0)
 	circuitbreaker.RegisterStateChangeListeners(&listener{it})
 }
@@ -130,21 +130,53 @@ func (it *Interp) Step(t []string, op string) string {
 		}
 		it.clk.SetMs(ms)
 		return ""
-	case "load":
-		if it.loaded || it.clk.CurrentTimeMillis() == 0 {
+	case "load", "loadres":
+		// LoadRules / LoadRulesOfResource at any point of the history.  Valid rules are numbered
+		// consecutively over all loads (the Id travels with the rule object a breaker is bound to).
+		if it.clk.CurrentTimeMillis() == 0 {
 			return "bad-op"
 		}
-		it.loaded = true
-		for i, s := range t[1:] {
-			it.rules = append(it.rules, parseRule(i, s))
+		toks := t[1:]
+		res := ""
+		if t[0] == "loadres" {
+			if len(t) < 2 || t[1] == "" {
+				return "bad-op"
+			}
+			res = t[1]
+			toks = t[2:]
 		}
-		if _, err := circuitbreaker.LoadRules(it.rules); err != nil {
+		var rules []*circuitbreaker.Rule
+		nvalid := 0
+		for _, s := range toks {
+			r := parseRule(0, s)
+			if t[0] == "loadres" && r.Resource != res {
+				return "bad-op"
+			}
+			if circuitbreaker.IsValidRule(r) == nil {
+				r.Id = strconv.Itoa(it.next + nvalid)
+				nvalid++
+			} else {
+				r.Id = "x"
+			}
+			rules = append(rules, r)
+		}
+		for _, r := range rules {
+			if r.Id != "x" {
+				it.rules = append(it.rules, r)
+				it.state[r.Id] = "C"
+			}
+		}
+		it.next += nvalid
+		var err error
+		if t[0] == "load" {
+			_, err = circuitbreaker.LoadRules(rules)
+		} else {
+			_, err = circuitbreaker.LoadRulesOfResource(res, rules)
+		}
+		if err != nil {
 			return "err"
 		}
-		for _, r := range circuitbreaker.GetRules() {
-			it.state[r.Id] = "C"
-		}
-		return strconv.Itoa(len(circuitbreaker.GetRules()))
+		return strconv.Itoa(nvalid)
 	case "entry":
 		id := vh.U(t[1])
 		var opts []api.EntryOption
@@ -190,7 +222,7 @@ func (it *Interp) Step(t []string, op string) string {
 				continue
 			}
 			if s, ok := it.state[r.Id]; ok {
-				xs = append(xs, s)
+				xs = append(xs, r.Id+s)
 			}
 		}
 		return vh.List(xs)
